@@ -47,18 +47,21 @@ Pat(name, w) ==
       [] name = "p64" -> BitL(64, w)
 \* second operands
 YPatNames == <<"zero", "one", "three", "max", "signbit", "alt", "m32", "p63p5">>
-\* shift counts (those below the width are used)
-CountNames == <<"s1", "s5", "s31", "s32", "s33", "s63", "s64", "s65", "half", "wm1">>
+\* shift counts: the fixed ones below the width, and the width itself, one more, twice the width (a shift by the
+\* width or more clears an unsigned value / leaves only sign bits)
+CountNames == <<"s1", "s5", "s31", "s32", "s33", "s63", "s64", "s65", "half", "wm1", "w0", "wp1", "w2">>
+AtOrAbove == {"w0", "wp1", "w2"}
 Count(name, w) ==
     CASE name = "s1" -> 1 [] name = "s5" -> 5 [] name = "s31" -> 31 [] name = "s32" -> 32 [] name = "s33" -> 33
       [] name = "s63" -> 63 [] name = "s64" -> 64 [] name = "s65" -> 65 [] name = "half" -> w \div 2 [] name = "wm1" -> w - 1
+      [] name = "w0" -> w [] name = "wp1" -> w + 1 [] name = "w2" -> 2 * w
 
 SeqToSet(s) == {s[i] : i \in DOMAIN s}
 Catalogue ==
     [ops |-> COps, boolops |-> CBoolOps, ks |-> CConsumers, xpats |-> PatNames, ypats |-> YPatNames,
      widths |-> {[w |-> w,
                   pats |-> [i \in DOMAIN PatNames |-> [n |-> PatNames[i], v |-> Pat(PatNames[i], w)]],
-                  counts |-> {[n |-> c, v |-> Count(c, w)] : c \in {d \in SeqToSet(CountNames) : Count(d, w) < w /\ Count(d, w) > 0}}]
+                  counts |-> {[n |-> c, v |-> Count(c, w)] : c \in {d \in SeqToSet(CountNames) : (Count(d, w) < w \/ d \in AtOrAbove) /\ Count(d, w) > 0}}]
                  : w \in CWidths}]
 
 (***************************************************************************)
